@@ -341,7 +341,7 @@ func judge(c *Cell, ep *Endpoint, cluster bool, resp Resp, stmts []StmtRec, reru
 		}
 	}
 	// limit=N requests: the N slots have to go to data of the window
-	if ep.Limit > 0 {
+	if ep.Limit > 0 && len(o.Findings) == 0 {
 		var inWin []*Item
 		for k := range items {
 			if typeOK(ep, &items[k]) && open(w, items[k].Ts) {
@@ -458,17 +458,37 @@ func explainLeak(ep *Endpoint, w Win, it *Item) string {
 		}
 		return "other_signal_type_" + typeLetters[it.Type] + "_outside_window"
 	}
+	// the window as a route that truncates to whole seconds (after a float64 parse of the nanoseconds) reads it
+	if we := secondsWindow(ep, w); (we.S != w.S || we.E != w.E) && ep.Allowed(we, it.Ts) {
+		switch {
+		case it.Ts < w.S:
+			return "start_truncated_to_whole_seconds"
+		case we.E > w.E:
+			return "end_moved_up_by_float64_parse_of_ns"
+		}
+	}
 	switch {
-	case w.S%1e9 != 0 && it.Ts < w.S && it.Ts >= floorTo(w.S, 1e9):
-		return "start_truncated_to_whole_seconds"
-	case w.E%1e9 != 0 && it.Ts >= w.E && it.Ts < floorTo(w.E, 1e9)+1e9 && it.Ts <= w.E+1:
-		return "end_rounded_up_to_whole_seconds"
 	case it.Ts == w.E:
 		return "end_inclusive"
 	case it.Ts < w.S:
 		return "before_window_" + it.Class
 	}
 	return "after_window_" + it.Class
+}
+
+// secondsWindow is the deviant reading of a window by a route that parses nanoseconds as float64 (FloatNs) and then
+// keeps whole seconds only (sub-second units).  It names deviations; the oracle never uses it.
+func secondsWindow(ep *Endpoint, w Win) Win {
+	if ep.Unit >= 1e9 {
+		return w
+	}
+	f := func(x int64) int64 {
+		if ep.FloatNs {
+			x = int64(float64(x))
+		}
+		return floorTo(x, 1e9)
+	}
+	return Win{Name: w.Name, S: f(w.S), E: f(w.E)}
 }
 
 // explainMiss finds where a must-item was dropped — the first statement in which a scan offered rows of the item
@@ -526,8 +546,13 @@ func explainMiss(c *Cell, ep *Endpoint, it *Item, stmts []StmtRec, resp Resp, sq
 				where += fmt.Sprintf(" — index row dated %s, statement's date bounds %s..%s", dayStr(sd), bl, bh)
 				loc := time.Local
 				if hasHi && sd > hi {
-					m30, lz := hi == utcDay(w.E-1800e9), hi == localDay(w.E, loc)
-					if hi < utcDay(w.E-1) && m30 && lz && rerun != nil {
+					// the day the upper bound has to reach: the day of the last instant the endpoint owes
+					needHi := utcDay(w.E - 1)
+					if ep.Must(w, w.E) {
+						needHi = utcDay(w.E)
+					}
+					m30, lz, m1 := hi == utcDay(w.E-1800e9), hi == localDay(w.E, loc), false
+					if hi < needHi && m30 && lz && rerun != nil {
 						// both deviant rules give this literal: ask again with an end 4 h later, where they differ
 						w2 := Win{Name: w.Name + "+4h", S: w.S, E: w.E + 4*3600e9}
 						if st2 := rerun(w2); si < len(st2) {
@@ -536,9 +561,21 @@ func explainMiss(c *Cell, ep *Endpoint, it *Item, stmts []StmtRec, resp Resp, sq
 							}
 						}
 					}
+					if hi < needHi && m30 && !lz && rerun != nil && w.E-floorTo(w.E, day) < 600e9 {
+						// "end - 30 min" and "just before the (truncated) end" give the same day this close to midnight:
+						// ask again with an end 10 min later, where only the former still says yesterday
+						w2 := Win{Name: w.Name + "+10m", S: w.S, E: w.E + 600e9}
+						if st2 := rerun(w2); si < len(st2) {
+							if _, _, hi2, ok2 := dateBounds(st2[si].SQL); ok2 && hi2 == utcDay(w2.E) {
+								m30, m1 = false, true
+							}
+						}
+					}
 					switch {
-					case hi >= utcDay(w.E-1):
+					case hi >= needHi:
 						return "writer_dates_index_row_after_utc_day:" + base, where
+					case m1:
+						return "upper_date_bound_excludes_day_of_window_end_near_midnight:" + base + "@" + ep.Group, where
 					case m30 && !lz:
 						return "upper_date_bound_is_end_minus_30min:" + base + "@" + ep.Group, where
 					case lz && !m30:
@@ -575,22 +612,26 @@ func explainMiss(c *Cell, ep *Endpoint, it *Item, stmts []StmtRec, resp Resp, sq
 
 // explainDataDrop names the reason a data-table bound dropped a datum of the window.  missing tells which of
 // the owed items the response lacks: "the bounds were truncated to whole seconds" is claimed only if every owed item
-// at or after the truncated end is missing.
+// outside the truncated window is missing.
 func explainDataDrop(ep *Endpoint, w Win, it *Item, owed []*Item, missing func(*Item) bool) string {
 	is15 := strings.Contains(ep.Group, "15s")
-	truncEnd := ep.Unit < 1e9 && w.E%1e9 != 0 && it.Ts >= floorTo(w.E, 1e9)
-	if truncEnd {
+	we := secondsWindow(ep, w)
+	outside := func(ts int64) bool { return !ep.Allowed(we, ts) } // what the truncated window (with its own widening) cannot return
+	trunc := (we.S != w.S || we.E != w.E) && outside(it.Ts)
+	if trunc {
 		for _, o := range owed {
-			if o.Ts >= floorTo(w.E, 1e9) && !missing(o) {
-				truncEnd = false
+			if outside(o.Ts) && !missing(o) {
+				trunc = false
 			}
 		}
 	}
 	switch {
+	case trunc && it.Ts >= we.S:
+		return "end_truncated_to_whole_seconds"
+	case trunc:
+		return "start_moved_up_by_float64_parse_of_ns"
 	case is15 && it.Ts < floorTo(w.S, 15e9)+15e9:
 		return "first_15s_bucket_excluded"
-	case truncEnd:
-		return "end_truncated_to_whole_seconds"
 	case is15 && it.Ts >= floorTo(w.E, 15e9):
 		return "end_floored_to_15s"
 	case it.Ts == w.S:
